@@ -3,7 +3,6 @@
 package corerad
 
 import (
-	"fmt"
 	"bytes"
 	"context"
 	"errors"
@@ -28,13 +27,26 @@ import (
 //                 now   = receipt time, UnixNano (kept >= 0)
 //                 type  = ICMPv6 type; the bracketed part only for 134 (RA)
 //                 opt   = 3 addr len onlink autonomous preferred valid | <option type != 3>
+//                         len is the length byte as handle sees it (0..255); addr is 0 for the
+//                         zero netip.Addr, which ndp's decoder leaves exactly when len > 128
 // Impl line:   k { metric host type addr len value }   sorted by (metric, host, type, addr, len)
+//                 a prefix label is `addr len` (len <= 128), or `0 256` for the literal
+//                 "invalid Prefix" that cidrStr renders for a length above 128
 //                 metric 0 received_total, 1 flag_managed, 2 flag_other, 3 default_route,
 //                        4 prefix_autonomous, 5 prefix_on_link, 6 prefix_preferred, 7 prefix_valid,
 //                        99 = a corerad_monitor_* sample that cannot be mapped back
 //
 // Label strings are mapped back to the ids of the case line through tables built with the
 // same functions the implementation uses (netip.Addr.String, cidrStr, ICMPType.String).
+//
+// Malformed prefix lengths (129..255): about one Prefix Information option in ten carries one,
+// half of the time together with a second malformed option (other address, other length) in the
+// same RA or with a well-formed option for the same address.  About a third of all RAs do not
+// reach the monitor as the Go value the generator built but as what ndp.ParseMessage decodes
+// from their wire form (ndp.MarshalMessage, then the length bytes patched, which is what a
+// sender on the link can do; ndp itself refuses to marshal such an option): the decoder keeps
+// the length byte and leaves Prefix as the zero netip.Addr.  The rest are handed over as built
+// (valid address, length > 128).  Either way cidrStr yields "invalid Prefix".
 
 const c18Iface = "vf0"
 
@@ -58,6 +70,21 @@ type c18Event struct {
 type c18Pfx struct {
 	addr netip.Addr
 	len  uint8
+}
+
+// c18InvalidLabel is what netip.Prefix.String prints for a prefix that is not valid; c18InvalidLen
+// is the `len` token that stands for it (no length byte has this value).
+const (
+	c18InvalidLabel = "invalid Prefix"
+	c18InvalidLen   = 256
+)
+
+// c18GenBadLen draws a length byte no IPv6 prefix can have.
+func c18GenBadLen(r *vfh.Rand) uint8 {
+	if r.Chance(1, 2) {
+		return vfh.Pick(r, []uint8{129, 130, 136, 192, 200, 254, 255})
+	}
+	return uint8(r.Range(129, 255))
 }
 
 type c18Sample struct {
@@ -135,7 +162,7 @@ func c18GenPfxs(r *vfh.Rand) []c18Pfx {
 		case 1:
 			l = vfh.Pick(r, []uint8{0, 1, 32, 48, 56, 63, 65, 96, 127, 128})
 		default:
-			l = uint8(r.Intn(129)) // <= 128 (DESIGN section 7)
+			l = uint8(r.Intn(129)) // the pool is well-formed; c18GenRA draws the lengths above 128
 		}
 		out = append(out, c18Pfx{a, l})
 		if r.Chance(1, 3) { // same address, another length
@@ -225,16 +252,35 @@ func c18GenRA(r *vfh.Rand, pfxs []c18Pfx) *ndp.RouterAdvertisement {
 	if r.Chance(2, 3) {
 		nother = r.Intn(4)
 	}
-	for i := 0; i < npi; i++ {
-		p := vfh.Pick(r, pfxs)
+	addPI := func(a netip.Addr, l uint8) {
 		ra.Options = append(ra.Options, &ndp.PrefixInformation{
-			PrefixLength:                   p.len,
+			PrefixLength:                   l,
 			OnLink:                         r.Bool(),
 			AutonomousAddressConfiguration: r.Bool(),
 			ValidLifetime:                  c18GenLifetime(r, false),
 			PreferredLifetime:              c18GenLifetime(r, false),
-			Prefix:                         p.addr,
+			Prefix:                         a,
 		})
+	}
+	for i := 0; i < npi; i++ {
+		p := vfh.Pick(r, pfxs)
+		if !r.Chance(1, 10) {
+			addPI(p.addr, p.len)
+			continue
+		}
+		// a length byte above 128
+		bad := c18GenBadLen(r)
+		addPI(p.addr, bad)
+		switch r.Intn(4) {
+		case 0: // a second malformed option in the same RA: other address, other length
+			q := vfh.Pick(r, pfxs)
+			addPI(q.addr, c18GenBadLen(r))
+		case 1: // a well-formed option for the same address next to it
+			addPI(p.addr, p.len)
+		case 2: // both
+			addPI(p.addr, p.len)
+			addPI(vfh.Pick(r, pfxs).addr, c18GenBadLen(r))
+		}
 	}
 	for i := 0; i < nother; i++ {
 		ra.Options = append(ra.Options, c18GenOther(r, pfxs))
@@ -243,9 +289,111 @@ func c18GenRA(r *vfh.Rand, pfxs []c18Pfx) *ndp.RouterAdvertisement {
 	return ra
 }
 
-func c18GenMsg(r *vfh.Rand, pfxs []c18Pfx, raBias int) ndp.Message {
+// c18WholeSeconds brings a lifetime into what the wire can carry: whole seconds in [0, max].
+func c18WholeSeconds(d time.Duration, max int64) time.Duration {
+	s := int64(d / time.Second)
+	if s < 0 {
+		s = -s
+	}
+	if s > max {
+		s = max
+	}
+	return time.Duration(s) * time.Second
+}
+
+// c18Wire returns the RA as the monitor of a real interface gets it: encoded, the length byte
+// of every Prefix Information option set to what the generator drew (also above 128), and
+// decoded again by ndp.ParseMessage.  Before encoding, the RA is brought into the encodable
+// range (lifetimes in whole seconds, prefixes masked to their length, no IPv4-mapped prefix,
+// which the decoder rejects together with the whole message, as it does a Route Information
+// option with a length above 128).  The case line is rendered from the decoded message.
+func c18Wire(t *testing.T, ra *ndp.RouterAdvertisement) *ndp.RouterAdvertisement {
+	unmap := func(a netip.Addr) netip.Addr {
+		if a.Is4In6() {
+			b := a.As16()
+			b[0], b[1] = 0x20, 0x01
+			return netip.AddrFrom16(b)
+		}
+		return a
+	}
+	w := *ra
+	w.RouterLifetime = c18WholeSeconds(ra.RouterLifetime, 65535)
+	w.Options = nil
+	var lens []uint8 // length byte of the i-th Prefix Information option on the wire
+	for _, o := range ra.Options {
+		switch o := o.(type) {
+		case *ndp.PrefixInformation:
+			c := *o
+			c.ValidLifetime = c18WholeSeconds(o.ValidLifetime, 1<<32-1)
+			c.PreferredLifetime = c18WholeSeconds(o.PreferredLifetime, 1<<32-1)
+			lens = append(lens, o.PrefixLength)
+			if c.PrefixLength > 128 {
+				c.PrefixLength = 128 // encodable; patched below
+			}
+			c.Prefix = netip.PrefixFrom(unmap(o.Prefix), int(c.PrefixLength)).Masked().Addr()
+			w.Options = append(w.Options, &c)
+		case *ndp.RouteInformation:
+			c := *o
+			c.RouteLifetime = c18WholeSeconds(o.RouteLifetime, 1<<32-1)
+			if c.PrefixLength > 128 {
+				c.PrefixLength = 128
+			}
+			c.Prefix = netip.PrefixFrom(unmap(o.Prefix), int(c.PrefixLength)).Masked().Addr()
+			w.Options = append(w.Options, &c)
+		case *ndp.RecursiveDNSServer:
+			c := *o
+			c.Lifetime = c18WholeSeconds(o.Lifetime, 1<<32-1)
+			w.Options = append(w.Options, &c)
+		case *ndp.DNSSearchList:
+			c := *o
+			c.Lifetime = c18WholeSeconds(o.Lifetime, 1<<32-1)
+			w.Options = append(w.Options, &c)
+		default:
+			w.Options = append(w.Options, o)
+		}
+	}
+	b, err := ndp.MarshalMessage(&w)
+	if err != nil {
+		t.Fatalf("C18 harness: RA %+v does not encode: %v", w, err)
+	}
+	// walk the options (type, length in units of 8 bytes) behind the 4-byte ICMPv6 header and
+	// the 12-byte RA body; Prefix Information is type 3, 32 bytes, length byte at offset 2
+	i := 0
+	for off := 16; off+2 <= len(b); {
+		n := int(b[off+1]) * 8
+		if n == 0 || off+n > len(b) {
+			t.Fatalf("C18 harness: bad option framing at %d in % x", off, b)
+		}
+		if b[off] == 3 && n == 32 {
+			if i >= len(lens) {
+				t.Fatalf("C18 harness: more Prefix Information options on the wire than generated")
+			}
+			b[off+2] = lens[i]
+			i++
+		}
+		off += n
+	}
+	if i != len(lens) {
+		t.Fatalf("C18 harness: %d of %d Prefix Information options found on the wire", i, len(lens))
+	}
+	m, err := ndp.ParseMessage(b)
+	if err != nil {
+		t.Fatalf("C18 harness: wire form % x does not decode: %v", b, err)
+	}
+	out, ok := m.(*ndp.RouterAdvertisement)
+	if !ok {
+		t.Fatalf("C18 harness: decoded %T", m)
+	}
+	return out
+}
+
+func c18GenMsg(t *testing.T, r *vfh.Rand, pfxs []c18Pfx, raBias int) ndp.Message {
 	if r.Chance(raBias, 10) {
-		return c18GenRA(r, pfxs)
+		ra := c18GenRA(r, pfxs)
+		if r.Chance(1, 3) {
+			return c18Wire(t, ra)
+		}
+		return ra
 	}
 	switch r.Intn(3) {
 	case 0:
@@ -257,19 +405,19 @@ func c18GenMsg(r *vfh.Rand, pfxs []c18Pfx, raBias int) ndp.Message {
 	}
 }
 
-func c18GenSeq(r *vfh.Rand, n int, raBias int) []c18Event {
+func c18GenSeq(t *testing.T, r *vfh.Rand, n int, raBias int) []c18Event {
 	hosts := c18GenHosts(r)
 	pfxs := c18GenPfxs(r)
 	evs := make([]c18Event, 0, n)
 	for i := 0; i < n; i++ {
-		evs = append(evs, c18Event{host: vfh.Pick(r, hosts), now: c18GenNow(r), msg: c18GenMsg(r, pfxs, raBias)})
+		evs = append(evs, c18Event{host: vfh.Pick(r, hosts), now: c18GenNow(r), msg: c18GenMsg(t, r, pfxs, raBias)})
 	}
 	return evs
 }
 
 // c18Case renders the case line and builds the reverse label tables.  Only the zone-free
 // address of each sender is recorded.
-func c18Case(evs []c18Event) (string, *c18Tables) {
+func c18Case(t *testing.T, evs []c18Event) (string, *c18Tables) {
 	tb := &c18Tables{hosts: map[string]netip.Addr{}, pfxs: map[string]c18Pfx{}, types: map[string]int{}}
 	c := new(vfh.Toks).S("mon").N(len(evs))
 	for _, e := range evs {
@@ -288,7 +436,14 @@ func c18Case(evs []c18Event) (string, *c18Tables) {
 				c.N(int(o.Code()))
 				continue
 			}
-			tb.pfxs[cidrStr(pi.Prefix, pi.PrefixLength)] = c18Pfx{pi.Prefix, pi.PrefixLength}
+			switch {
+			case pi.PrefixLength > 128:
+				// no CIDR form; the literal label is always in the table (c18Map)
+			case !pi.Prefix.Is6():
+				t.Fatalf("C18 harness: Prefix Information %+v is outside the model (no 16-byte address)", pi)
+			default:
+				tb.pfxs[cidrStr(pi.Prefix, pi.PrefixLength)] = c18Pfx{pi.Prefix, pi.PrefixLength}
+			}
 			c.N(3).S(c18Val(pi.Prefix)).N(int(pi.PrefixLength)).B(pi.OnLink).B(pi.AutonomousAddressConfiguration).
 				I(int64(pi.PreferredLifetime)).I(int64(pi.ValidLifetime))
 		}
@@ -389,6 +544,10 @@ func c18Map(id int, key string, v float64, tb *c18Tables) c18Sample {
 			}
 			s.typ = ty
 		case "prefix":
+			if val == c18InvalidLabel {
+				s.addr, s.len = [16]byte{}, c18InvalidLen
+				break
+			}
 			p, ok := tb.pfxs[val]
 			if !ok {
 				return bad
@@ -407,7 +566,9 @@ func c18NewMonitor() (*Monitor, *Metrics) {
 
 // c18Direct calls handle for each message with an injected clock; the zone is cleared the way
 // Listen does it before the callback.
-func c18Direct(out *vfh.Out, evs []c18Event) {
+func c18Direct(t *testing.T, out *vfh.Out, evs []c18Event) {
+	c, tb := c18Case(t, evs)
+	out.Pending("c18Direct " + c) // a panic in handle makes this case the failing input
 	m, mm := c18NewMonitor()
 	var cur int64
 	m.now = func() time.Time { return time.Unix(0, cur) }
@@ -416,7 +577,6 @@ func c18Direct(out *vfh.Out, evs []c18Event) {
 		host := e.host.WithZone("")
 		m.handle(e.msg, host.String())
 	}
-	c, tb := c18Case(evs)
 	out.Line(c, c18Read(mm, tb))
 }
 
@@ -452,7 +612,8 @@ func (c *c18Conn) WriteTo(ndp.Message, *ipv6.ControlMessage, netip.Addr) error {
 // c18Listen delivers the sequence through the real listener (`(*Monitor).monitor` ->
 // `Listen` -> callback -> `handle`), senders carrying their zones.
 func c18Listen(t *testing.T, out *vfh.Out, evs []c18Event) {
-	out.Pending(fmt.Sprintf("c18Listen events=%+v", evs))
+	c, tb := c18Case(t, evs)
+	out.Pending("c18Listen " + c)
 	m, mm := c18NewMonitor()
 	var cur int64
 	m.now = func() time.Time { return time.Unix(0, cur) }
@@ -467,7 +628,6 @@ func c18Listen(t *testing.T, out *vfh.Out, evs []c18Event) {
 	if delivered != len(evs) {
 		t.Fatalf("C18: %d of %d messages delivered", delivered, len(evs))
 	}
-	c, tb := c18Case(evs)
 	out.Line(c, c18Read(mm, tb))
 }
 
@@ -475,16 +635,16 @@ func verifC18(t *testing.T, r *vfh.Rand, out *vfh.Out) {
 	// (1) single messages
 	n := vfh.N(5000, 100000)
 	for k := 0; k < n; k++ {
-		c18Direct(out, c18GenSeq(r, 1, 8))
+		c18Direct(t, out, c18GenSeq(t, r, 1, 8))
 	}
 	// (2) sequences: several senders, repeated senders and prefixes
 	n = vfh.N(5000, 100000)
 	for k := 0; k < n; k++ {
-		c18Direct(out, c18GenSeq(r, 2+r.Intn(9), 3+r.Intn(7)))
+		c18Direct(t, out, c18GenSeq(t, r, 2+r.Intn(9), 3+r.Intn(7)))
 	}
 	// (3) the same through the real listener (zone stripping is the listener's)
 	n = vfh.N(1000, 20000)
 	for k := 0; k < n; k++ {
-		c18Listen(t, out, c18GenSeq(r, 1+r.Intn(8), 3+r.Intn(7)))
+		c18Listen(t, out, c18GenSeq(t, r, 1+r.Intn(8), 3+r.Intn(7)))
 	}
 }
